@@ -17,7 +17,9 @@ PROP = dict(
                      'integer/string/buffer/package data, Store/Return/Add/If/While/calls with 0-7 arguments (forward, backward, nested), '
                      'all name forms, every PkgLength width, 1-3 tables'],
         level_text='proof (partial). Lean theorems for all inputs: pkglen_roundtrip (all four PkgLength encodings decode to the encoded value '
-                   'and advance exactly), const_roundtrip (integer constants likewise), facts_agree (the generated tables this run saw are the '
+                   'and advance exactly), pkg_roundtrip (the package end the parser computes from encPkg is exactly the end of the encoded body), const_roundtrip (integer constants likewise), name_roundtrip (every name string the encoder can produce - root prefix, any number of ^, '
+                   'NullName / NameSeg / DualNamePath / MultiNamePath with 3..255 segments - is read back by parseNameString: success, exact advance, the slice covers exactly '
+                   'the encoded bytes without the NullName terminator), string_roundtrip (every ASCII string with its terminator likewise), namespace_is_tree (spec side: for EVERY program namespaceOf declares no path twice and every path has its parent - the oracle compares against a well-formed namespace), facts_agree (the generated tables this run saw are the '
                    'ones the parser model is built on); kernel-evaluated witness theorems on the parser model for the deterministic boundary '
                    'programs: d6_counterexample, name_caret_counterexample, call_arg_expression_counterexample, '
                    'if_empty_body_counterexample, while_nested_block_counterexample (the property is false there: known findings), '
@@ -27,8 +29,8 @@ PROP = dict(
                    'succeeds and nsOf = namespaceOf p for every program - is NOT a theorem: it is decided for every generated program by the '
                    'executable specification namespaceOf (ACPI scoping rules written directly) and the differential oracle on the real '
                    'parser after every table load, and it is false today for five program shapes (known findings).',
-        level_note='Partial: no whole-parser theorem (parse_encode, flat_decls_partial, call_arity_partial and the name/string round trips '
-                   'are not proved). Known findings (reported as KNOWN-FINDING, each with a witness in the deterministic boundary list and '
+        level_note='Partial: no whole-parser theorem (parse_encode, flat_decls_partial, call_arity_partial '
+                   'are not proved; the lexical round trips are: pkglen/const/name/string_roundtrip). Known findings (reported as KNOWN-FINDING, each with a witness in the deterministic boundary list and '
                    'a Lean counterexample theorem): multi-segment paths through a Device are rejected (D6); ^-prefixed declarations inside '
                    'a Device land one level too low; a call whose argument is an expression gets the wrong arguments; an If without '
                    'object-creating body fails/swallows the next statement; inside a While a nested If/While drops the statements after it. '
